@@ -90,7 +90,7 @@ def gauges (s : Srv) : String :=
   let held := (s.strms.map (·.prevHdr.length)).sum
   let infl := (s.strms.filter (·.handlerRunning)).length + s.abandoned.length
   let body := (s.strms.filter fun st => !st.responded && !st.handlerRunning).foldl (fun m st => max m st.body.len) 0
-  s!"ok strms={s.strms.length} open={s.openStreams} ring={s.ring.length} held={held} rwin={s.recvWin} body={body} infl={infl}"
+  s!"ok strms={s.strms.length} open={s.openStreams} ring={s.ring.length} held={held} rwin={s.recvWin} body={body} infl={infl} rmem={s.resetByUs.length}"
 
 def step (st : State) (args : List String) : State × String :=
   match args with
